@@ -27,6 +27,13 @@ ASSUMPTIONS = [
     "where np.argsort / np.argmax meet exact or near ties (within 1e-9) the order of tied components is not "
     "compared with the model; the property itself (same tensor, normal form) is still checked",
 ]
+ANCHORS = [("pyttb/ktensor.py", "ktensor." + f) for f in (
+    "__init__", "from_vector", "arrange", "copy", "extract", "fixsigns", "isequal", "normalize", "redistribute",
+    "score", "tolist", "tovec", "update", "__add__", "__sub__", "__neg__", "__pos__", "__mul__", "__rmul__")]
+TRUSTED_EXTRA = [
+    "C08: the driver's rational square root / N-th root (exact on rational squares / powers, floor at 2^-80 "
+    "otherwise) stands in for the exact root assumed by the theorems; the 1-norm and max-norm paths are exact",
+]
 EXHAUSTIVE = {"quick": False, "thorough": False}
 
 TOL = 1e-12
@@ -215,13 +222,15 @@ class KFamily(Family):
 class Algebra(KFamily):
     name = "algebra"
     kt_keys = ("K", "L")
-    theorems = ("C08_add", "C08_sub", "C08_neg", "C08_smul", "C08_extract_denote", "C08_extract_rejects",
-                "C08_arrange_perm_denote", "C08_redistribute_denote", "C08_redistribute_weights_one",
-                "C08_vec_roundtrip", "C08_update_roundtrip", "C08_tolist_denote")
+    theorems = ("C08_add", "C08_sub", "C08_add_sub_rejects", "C08_neg", "C08_smul", "C08_pos_copy",
+                "C08_extract_denote", "C08_extract_int", "C08_extract_none", "C08_extract_rejects",
+                "C08_arrange_perm_denote", "C08_arrange_perm_accepted_denote", "C08_arrange_perm_rejects",
+                "C08_redistribute_denote", "C08_redistribute_weights_one", "C08_redistribute_accepts_rejects",
+                "C08_vec_roundtrip", "C08_update_roundtrip", "C08_isequal", "C08_isequal_pinned_counterexample")
 
     def gen(self, rng, tier):
         out = []
-        n = 12 if tier == "quick" else 120
+        n = 12 if tier == "quick" else 300
         kts = [gen_kt(rng, s) for s in FIXED_SHAPES] + [gen_kt(rng) for _ in range(n)]
         kts.append(gen_kt(rng, [2, 3], 1))
         kts.append(gen_kt(rng, [3, 2, 2, 2], 2))
@@ -256,6 +265,9 @@ class Algebra(KFamily):
             # vectors
             for w in (True, False):
                 out.append({"op": "vec", "K": K, "w": w})
+            for w in (True, False):
+                n_data = R * (sum(s) + (1 if w else 0))
+                out.append({"op": "from_vector", "data": [rng.randint(-9, 9) for _ in range(n_data)], "shape": s, "w": w})
             out.append({"op": "tolist", "K": dict(K, weights=[1] * R)})
             out.append({"op": "update_all", "K": K, "L": gen_kt(rng, s, R)})
             modes = sorted(rng.sample(range(-1, N), rng.randint(1, N + 1)))
@@ -583,13 +595,14 @@ def check_normal_form(c, r, nt, wf_valid, mode, sort, N):
 
 class Normalize(KFamily):
     name = "normalize"
-    theorems = ("C08_normalize_denote", "C08_normalize_unit", "C08_normalize_nonneg", "C08_normalize_sorted",
-                "C08_normalize_absorb", "C08_norm1_laws", "C08_normInf_laws", "C08_norm2_laws")
+    theorems = ("C08_normalize_denote", "C08_normalize_unit", "C08_normalize_unit_mode", "C08_normalize_nonneg",
+                "C08_normalize_sorted", "C08_normalize_absorb", "C08_normalize_accepts", "C08_normalize_rejects",
+                "C08_norm1_laws", "C08_normInf_laws", "C08_norm2_laws", "C08_argsort_contract", "C08_std_lawful")
 
     def gen(self, rng, tier):
         out = []
         kts = [gen_kt(rng, s, distinct_weights=True) for s in FIXED_SHAPES]
-        kts += [gen_kt(rng, distinct_weights=rng.random() < 0.7) for _ in range(10 if tier == "quick" else 150)]
+        kts += [gen_kt(rng, distinct_weights=rng.random() < 0.7) for _ in range(10 if tier == "quick" else 400)]
         kts.append(gen_kt(rng, [2, 2], 2, zero_cols=0.6))
         kts.append(gen_kt(rng, [4, 3], 1))
         for K in kts:
@@ -654,8 +667,6 @@ class Normalize(KFamily):
                 bad = "normalize changed the tensor"
             else:
                 bad = check_normal_form(c, r, c["nt"], c["wf"], c["mode"], c["sort"] and c["mode"] is None, N)
-            if bad is None and not ic["ok"]["same"]:
-                bad = "normalize did not return its receiver"
             if bad is None and not close(r, m["ok"]):
                 mw = m["ok"]["weights"]
                 if c["sort"] and near_ties([fr(x) for x in mw]):
@@ -669,12 +680,13 @@ class Normalize(KFamily):
 
 class Arrange(KFamily):
     name = "arrange"
-    theorems = ("C08_arrange_denote", "C08_arrange_sorted", "C08_arrange_absorb", "C08_arrange_rejects_both")
+    theorems = ("C08_arrange_denote", "C08_arrange_sorted", "C08_arrange_absorb", "C08_arrange_unit",
+                "C08_arrange_rejects_both", "C08_arrange_rejects_mode")
 
     def gen(self, rng, tier):
         out = []
         kts = [gen_kt(rng, s, distinct_weights=True) for s in FIXED_SHAPES]
-        kts += [gen_kt(rng, distinct_weights=rng.random() < 0.8) for _ in range(10 if tier == "quick" else 150)]
+        kts += [gen_kt(rng, distinct_weights=rng.random() < 0.8) for _ in range(10 if tier == "quick" else 500)]
         for K in kts:
             N, R = len(K["factors"]), len(K["weights"])
             out.append({"K": K, "wf": None, "perm": None})
@@ -752,7 +764,7 @@ class Fixsigns(KFamily):
     def gen(self, rng, tier):
         out = []
         kts = [gen_kt(rng, s, zero_cols=0.05) for s in FIXED_SHAPES]
-        kts += [gen_kt(rng, zero_cols=0.05) for _ in range(40 if tier == "quick" else 600)]
+        kts += [gen_kt(rng, zero_cols=0.05) for _ in range(40 if tier == "quick" else 2000)]
         # every sign pattern of the modes for one component
         for N in (1, 2, 3, 4):
             if N == 4 and tier == "quick":
@@ -803,8 +815,6 @@ class Fixsigns(KFamily):
                            for f0, f1 in zip(K["factors"], fs)):
                         bad = "fixsigns changed a column by more than its sign"
                         break
-            if bad is None and not impl["ok"]["same"]:
-                bad = "fixsigns did not return its receiver"
             if bad is None and not deep_eq(r, m):
                 out.append(Verdict("corr", "fixsigns differs from the model", impl, m, None, tags))
                 continue
@@ -822,7 +832,7 @@ class FixsignsRef(KFamily):
         # every sign pattern: the receiver is the reference with some modes negated (and optionally perturbed)
         for N in (1, 2, 3, 4):
             for sg in itertools.product([1, -1], repeat=N):
-                reps = 1 if tier == "quick" else 4
+                reps = 1 if tier == "quick" else 12
                 for _ in range(reps):
                     shape = [rng.randint(2, 3) for _ in range(N)]
                     R = rng.choice([1, 2, 3, 4])
@@ -841,7 +851,7 @@ class FixsignsRef(KFamily):
                                     if rng.random() < 0.3:
                                         row[r] += rng.choice([-1, 1])
                     out.append({"K": K, "other": ref})
-        for _ in range(20 if tier == "quick" else 400):
+        for _ in range(20 if tier == "quick" else 1200):
             s = gen.shape(rng, 1, 4, 3)
             RA = rng.randint(1, 4)
             RB = rng.randint(1, RA) if rng.random() < 0.9 else RA + 1
@@ -918,11 +928,11 @@ class FixsignsRef(KFamily):
 # ----------------------------------------------------------------------------
 class Tolist(KFamily):
     name = "tolist"
-    theorems = ("C08_tolist_denote", "C08_tolist_mode_denote")
+    theorems = ("C08_tolist_denote",)
 
     def gen(self, rng, tier):
         out = []
-        kts = [gen_kt(rng, s) for s in FIXED_SHAPES] + [gen_kt(rng) for _ in range(15 if tier == "quick" else 250)]
+        kts = [gen_kt(rng, s) for s in FIXED_SHAPES] + [gen_kt(rng) for _ in range(15 if tier == "quick" else 600)]
         kts.append(gen_kt(rng, [2, 2, 2], 2, wpool=[8, -27, 0, 1]))
         kts.append(gen_kt(rng, [3, 2], 3, wpool=[4, 9, -16, 0]))
         for K in kts:
@@ -978,11 +988,11 @@ class Tolist(KFamily):
 class Score(KFamily):
     name = "score"
     kt_keys = ("K", "other")
-    theorems = ("C08_score_perm", "C08_score_denote")
+    theorems = ("C08_score_perm",)
 
     def gen(self, rng, tier):
         out = []
-        for _ in range(25 if tier == "quick" else 400):
+        for _ in range(25 if tier == "quick" else 1500):
             s = gen.shape(rng, 1, 4, 3)
             RA = rng.randint(1, 4)
             K = gen_kt(rng, s, RA, zero_cols=0.05, wpool=[-3, -2, 1, 2, 3, 5, 0], distinct_weights=True)
@@ -1043,8 +1053,6 @@ class Score(KFamily):
                 bad = "score returned a matching that is not a permutation of the components"
             elif not vec_close(denote_j(r["A"]), d0):
                 bad = "the tensor returned by score does not denote the receiver"
-            elif not deep_eq(r["K"], K):
-                bad = "score modified its receiver"
             else:
                 bad = check_normal_form(c, r["A"], "2", None, None, False, N)
             if bad is None:
